@@ -74,8 +74,9 @@ def build_model(scn):
     cls = SupervisedOPF if scn["kind"] == "sup" else SemiSupervisedOPF
     m = cls(distance=scn.get("metric", "euclidean"))
     if scn["mode"] == "pre":
+        how = H.derive_presentation(scn)
         m.pre_computed_distance = True
-        m.pre_distances = np.array(scn["D"], dtype=float)
+        m.pre_distances = H.present_layout(H.present_values(scn["D"], how, matrix=True), how)
     return m
 
 
@@ -99,7 +100,9 @@ def run_scenario(scn, want_events=True, twin_fin=None):
 
     H.import_opfython()
     install_wrappers()
-    Z = np.array(scn["Z"], dtype=float)
+    how = H.derive_presentation(scn)
+    P = lambda A: H.present_layout(A, how)
+    Z = H.present_values(scn["Z"], how)
     nl = len(scn["Y"])
     I_train = scn["I_train"] if scn.get("I_train") is not None else list(range(nl))
     U = scn.get("U") or []
@@ -132,9 +135,9 @@ def run_scenario(scn, want_events=True, twin_fin=None):
     if "refit" in hist:
         try:
             if scn["kind"] == "sup":
-                model.fit(Xtr.copy(), Ytr.copy(), (np.array(I_train) + (int(scn.get("id_offset", 0)) if scn["mode"] != "pre" else 0)) if passI else None)
+                model.fit(P(Xtr.copy()), Ytr.copy(), (np.array(I_train) + (int(scn.get("id_offset", 0)) if scn["mode"] != "pre" else 0)) if passI else None)
             else:
-                model.fit(Xtr.copy(), Ytr.copy(), Xu.copy(), (np.array(I_train) + (int(scn.get("id_offset", 0)) if scn["mode"] != "pre" else 0)) if passI else None)
+                model.fit(P(Xtr.copy()), Ytr.copy(), P(Xu.copy()), (np.array(I_train) + (int(scn.get("id_offset", 0)) if scn["mode"] != "pre" else 0)) if passI else None)
         except Exception as ex:
             return None, ("exception", "%s: %s" % (type(ex).__name__, str(ex)[:200]))
     CTX.update(on=True, model=model, snaps=[])
@@ -145,15 +148,15 @@ def run_scenario(scn, want_events=True, twin_fin=None):
             # makes them collide with the positions SemiSupervisedOPF gives the unlabeled nodes)
             ids = np.array(I_train) + (int(scn.get("id_offset", 0)) if scn["mode"] != "pre" else 0)
             if scn["kind"] == "sup":
-                model.fit(Xtr.copy(), Ytr.copy(), ids if passI else None)
+                model.fit(P(Xtr.copy()), Ytr.copy(), ids if passI else None)
             else:
-                model.fit(Xtr.copy(), Ytr.copy(), Xu.copy(), ids if passI else None)
+                model.fit(P(Xtr.copy()), Ytr.copy(), P(Xu.copy()), ids if passI else None)
         finally:
             CTX["on"] = False
         orig = model
         for step in hist:
             if step == "prepredict" and Q:
-                model.predict(Z[Q[::-1]].copy(), np.array(Q[::-1]) if passI else None)
+                model.predict(P(Z[Q[::-1]].copy()), np.array(Q[::-1]) if passI else None)
             else:
                 # save -> load into a freshly constructed object (default arguments, i.e. another metric), or a deep copy
                 model = H.apply_history_step(model, step)
@@ -177,12 +180,12 @@ def run_scenario(scn, want_events=True, twin_fin=None):
             if scn.get("single_predict"):
                 for j, qrow in enumerate(Q):
                     before = [int(nd.relevant) for nd in nodes]
-                    r = model.predict(Xq[j : j + 1].copy(), np.array([qrow]) if passI else None)
+                    r = model.predict(P(Xq[j : j + 1].copy()), np.array([qrow]) if passI else None)
                     after = [int(nd.relevant) for nd in nodes]
                     qres.append(int(r[0]))
                     flags.append((before, after))
             else:
-                r = model.predict(Xq.copy(), np.array(Q) if passI else None)
+                r = model.predict(P(Xq.copy()), np.array(Q) if passI else None)
                 if len(r) != len(Q):
                     return None, ("violation", "C03", "prediction_count", "predict returned %d labels for %d samples" % (len(r), len(Q)))
                 qres = [int(x) for x in r]
@@ -192,7 +195,7 @@ def run_scenario(scn, want_events=True, twin_fin=None):
     # ---- the distances the property talks about, computed by the harness
     rows = list(I_train) + list(U)
     if scn["mode"] == "pre":
-        Dfull = np.array(scn["D"], dtype=float)
+        Dfull = np.array(H.present_values(scn["D"], how, matrix=True), dtype=float)
         D = Dfull[np.ix_(rows, rows)]
         DQ = Dfull[np.ix_(rows, Q)] if Q else np.zeros((n, 0))  # code reads pre[train.idx][query.idx]
     else:
